@@ -466,3 +466,25 @@ NOT_APPLICABLE.update({
 for _p in ("C20",):
     PROPS.pop(_p, None)
     CLAIMS.pop(_p, None)
+
+PROPS["C20"] = {
+    "quick": [{"name": "chunks", "harnesses": ["c20_page_chunks_small"], "jobs": 1, "features": "pdf_parse",
+               "cbmc_args": SMALL, "mem_gb": 24}],
+    "thorough": [{"name": "chunks", "harnesses": ["c20_page_chunks_small"], "jobs": 1, "features": "pdf_parse",
+                  "cbmc_args": SMALL, "mem_gb": 24}],
+    "functions": ["peripheral::pdf::LazyPageTextVec::safe_page_chunks_with_remainder_pn"],
+    "bounds": ("documents of 0..3 pages; one hint group of two page numbers, each symbolic in 0..4 (so 0, out-of-range "
+               "numbers and a repeated number are inside); unwind 5"),
+    "outside": ("more than 3 pages or more than one hint group (4 pages with groups [h0,h1],[h2] ran out of memory at "
+                "24 GB, 2x2 hints at 28 GB); OptimizedPageIter (needs a lopdf::Document); the allocation-table parser "
+                "FmvParseSm / parse_statement_text (regex-driven state machine over extracted text: not encodable)"),
+}
+CLAIMS["C20"] = {
+    "text": ("Bounded model checking of the page-hint sanitiser on small documents: for every page count up to 3 and every "
+             "pair of hinted page numbers (including 0, out-of-range and repeated numbers) the chunks returned contain only "
+             "existing pages and contain every page of the document at least once (exactly once when hinted at most once)."),
+    "note": (TRUSTED + "Only the page-chunk clause of C20 is covered, on very small instances; the statement-text parser "
+             "(every holding exactly once, totals, month) is outside the check."),
+    "design_ref": "DESIGN.md 0.6, 0.7",
+}
+NOT_APPLICABLE.pop("C20", None)
